@@ -38,6 +38,7 @@ PREDICT = {
     "busy": [(None, 1, 0)],
     "sleeping": [(None, 1, 0)],
     "swallow": [(None, 1, 1)],
+    "swallow_nostdio": [(None, 1, 1)],
     "threads": [(0, 1, 0)],          # the body blocks in receive(); its daemon threads do not count
     "nonmain_busy": [(0, 1, 0), (None, 0, 0)],
     "lockholder": [(None, 1, 0)],    # sleeping in a callback while holding the receive lock; the interrupt unwinds it
@@ -177,11 +178,11 @@ def main(tier, seed, replay=None):
     rng = ck.rng
     virtual_layer(ck, ok, tier, rng)
     real_layer(ck, tier, rng)
-    return ck.finish(rule="real processes: an initiating process (own interpreter) starts 1-2 popen workers (thread / main_thread_only) with one of 11 activities (idle, blocked in receive, busy loop, sleeping, swallowing KeyboardInterrupt, extra daemon threads, a busy body outside the main thread, a callback sleeping while it holds the receive lock, an endless 1 MB transfer, an endless stream of small items with and without swallowing interrupts) and is SIGKILLed / exits / closes the connection / calls Gateway.exit() and exits after the workers reported their pids; every worker pid must be gone after t1 + t2 + slack. distinct = (activity, how, execmodel, workers).")
+    return ck.finish(rule="real processes: an initiating process (own interpreter) starts 1-2 popen workers (thread / main_thread_only) with one of 18 activities (idle, blocked in receive, busy loop, sleeping, swallowing KeyboardInterrupt, the same with the worker's standard streams closed, extra daemon threads, a busy body outside the main thread, a callback sleeping while it holds the receive lock, an endless 1 MB transfer, an endless stream of small items with and without swallowing interrupts) and is SIGKILLed / exits / closes the connection / calls Gateway.exit() and exits after the workers reported their pids; every worker pid must be gone after t1 + t2 + slack. distinct = (activity, how, execmodel, workers).")
 
 
 def real_layer(ck, tier, rng):
-    acts = ["idle", "blocked", "busy", "sleeping", "swallow", "threads", "nonmain_busy", "lockholder", "transfer", "sender", "sender_swallow", "endmarker_raiser", "callback_sysexit", "nondaemon_thread", "inbound_transfer", "lockholder_inflight", "main_idle_other_blocked"]
+    acts = ["idle", "blocked", "busy", "sleeping", "swallow", "swallow_nostdio", "threads", "nonmain_busy", "lockholder", "transfer", "sender", "sender_swallow", "endmarker_raiser", "callback_sysexit", "nondaemon_thread", "inbound_transfer", "lockholder_inflight", "main_idle_other_blocked"]
     hows = ["kill", "kill", "exit", "close", "gwexit"]
     jobs = []
     if tier == "quick":
